@@ -42,6 +42,10 @@ claimed = {
          "Decides that every committed field participates in its hash (a frozen, protocol-derived table of ~150 field×formula obligations over transaction, block, receipt, event, state-diff and cairo0 class hashes), that formulas are dispatched under the protocol's version thresholds, that the success exits of SanityCheckNewHeight/VerifyBlockHash/VerifyTransactions/VerifyClassHashes are reachable only with every comparison passed, that TransactionHash covers every transaction type, and that Store checks succession before any write. It does not decide that the computed hashes equal the network's, nor collision resistance.",
          "trusted: go/types, go/ssa; flow is over-approximate (a call propagates taint from any argument to its result and pointer arguments), which can only hide a missing field, never invent a violation; the field table is hand-confirmed against the code and the Starknet hash specifications",
          "DESIGN.md §5 C02"),
+ "C01": ("canonical term extraction and comparison of commitment formulas in both state backends; must-hold DNF at the formula's case exits; referenced hash-family symbols per trie role; dominance of root comparisons; allocation/copy sites of trie2 nodes must set fresh flags; field-store ownership of the legacy trie's dirty set; path check that the node set returned by Commit() is consumed",
+         "Decides that the formulas that combine roots are the protocol's and identical in both backends (contract commitment, class leaf, state commitment incl. the 0.14.0 rule and domain constants), that every trie role is built with its hash family in both backends and in both temp-trie backends, that Update/Revert/Finalise authenticate the root before and after mutating, that trie2 never returns a structurally modified node with a stale cached hash, that the legacy trie's dirty set is only cleared after recomputation, and that committed (incl. deleted) nodes always reach the caller. It does not decide that either trie computes the Merkle-Patricia root of its key/value set, nor order/restart independence.",
+         "trusted: go/types, go/ssa; formula recognition is by canonical term: a formula rewritten beyond the recognised form fails and must be re-confirmed by hand",
+         "DESIGN.md §5 C01"),
 }
 pending = {}  # id -> reason (properties not claimed)
 props = [json.loads(l) for l in open(os.path.join(V, "properties.jsonl"))]
